@@ -119,9 +119,12 @@ func initRanks() {
 	writerRank = r
 }
 
+// StoreFactory makes the store of a new world (the scheduler harness installs a hooked store).
+var StoreFactory = store.New
+
 func NewWorld(cfg *Config) *World {
 	initRanks()
-	w := &World{Cfg: cfg, St: store.New(), UID: map[string]int{}}
+	w := &World{Cfg: cfg, St: StoreFactory(), UID: map[string]int{}}
 	w.M = &refmodel.Model{WriterRank: writerRank}
 	w.M.Name = func(uid int) string { return w.Ent[uid].GetHash().String() }
 	for i, wr := range cfg.Writers {
